@@ -419,6 +419,13 @@ func c16Run(c *Ctx) {
 					return
 				}
 			}
+			if o.Env != "" && len(o.Defaults) == 0 && o.DefaultMask == "" {
+				// without a default the man page names the environment variable - under its full, namespaced name
+				if want := "\\fI$" + d.FullEnv(o) + "\\fR"; !strings.Contains(out, want) {
+					c.Violate("missing:man:environment-variable", "visible option %s: %q is not in the man page", o.Field, want)
+					return
+				}
+			}
 		}
 		for _, cm := range d.Cmds[1:] {
 			if hiddenCmdAbove(cm) {
